@@ -12,5 +12,6 @@ CONSTANTS
   DedupBatch = TRUE
   MaxOps = 4
 VIEW View
+INVARIANTS ValueIsOffered CacheIsOffered NeverMarker SizeBound Accounting ReloadSame FileSync
 ACTION_CONSTRAINT Export
 CHECK_DEADLOCK FALSE
